@@ -23,6 +23,29 @@ fn c05() {
     println!("C05 pending after two acked appends (expect 2): {}", pending.len());
 }
 
+fn c05exact() {
+    // region 300 = three 100-byte entries exactly. One entry is checkpointed (so pending < region size), then two acknowledged
+    // appends end exactly on the region boundary: the head becomes (200+100) % 300 = 0 with 200 bytes pending.
+    let file = tempfile::tempfile().unwrap();
+    let size = 300u64;
+    file.set_len(4096 + size).unwrap();
+    let mut header = Header { magic: *b"MV2\0", version: 0x0201, footer_offset: 0, wal_offset: 4096, wal_size: size,
+        wal_checkpoint_pos: 0, wal_sequence: 0, toc_checksum: [0u8; 32] };
+    let mut wal = EmbeddedWal::open(&file, &header).unwrap();
+    wal.append_entry(&[0xAA; 52]).unwrap();
+    wal.record_checkpoint(&mut header).unwrap();
+    let a = wal.append_entry(&[0xBB; 52]).is_ok();
+    let b = wal.append_entry(&[0xCC; 52]).is_ok();
+    println!("C05exact appends acknowledged: {} {}", a, b);
+    println!("C05exact pending in session (expect 2): {:?}", wal.pending_records().map(|r| r.len()));
+    drop(wal);
+    let mut wal = EmbeddedWal::open(&file, &header).unwrap();
+    println!("C05exact pending after reopen (expect 2): {:?}", wal.pending_records().map(|r| r.len()));
+    let c = wal.append_entry(&[0xDD; 52]);
+    println!("C05exact next append after reopen (expect Err region full -> growth): {:?}", c.as_ref().map_err(|e| e.to_string()));
+    println!("C05exact pending after that (expect 2, or 3 if it was accepted): {:?}", wal.pending_records().map(|r| r.len()));
+}
+
 fn c26() {
     let dir = tempfile::tempdir().unwrap();
     let p = dir.path().join("a.mv2");
@@ -592,5 +615,5 @@ fn c08() {
 
 fn main() {
     let which = std::env::args().nth(1).unwrap_or_default();
-    match which.as_str() { "c05"=>c05(), "c26"=>c26(), "c20"=>c20(), "c20blob"=>c20blob(), "c07"=>c07(), "c39"=>c39(), "c19"=>c19(), "c02growth"=>c02growth(), "c04"=>c04(), "c27skip"=>c27skip(), "c40stale"=>c40stale(), "c27auto"=>c27auto(), "c27rec"=>c27rec(), "c23mem"=>c23mem(), "c20wal"=>c20wal(), "c26replay"=>c26replay(), "c18replay"=>c18replay(), "c02replay"=>c02replay(), "c32"=>c32(), "c11"=>c11(), "c17"=>c17(), "c08"=>c08(), "c29"=>c29(), "c14"=>c14(), "c09"=>c09(), "c18"=>c18(), "c23"=>c23(), "c16"=>c16(), "c40"=>c40(), "c24"=>c24(), "c15"=>c15(), "c22"=>c22(), _=>{ c05(); c26(); c20(); c11(); c17(); } }
+    match which.as_str() { "c05"=>c05(), "c05exact"=>c05exact(), "c26"=>c26(), "c20"=>c20(), "c20blob"=>c20blob(), "c07"=>c07(), "c39"=>c39(), "c19"=>c19(), "c02growth"=>c02growth(), "c04"=>c04(), "c27skip"=>c27skip(), "c40stale"=>c40stale(), "c27auto"=>c27auto(), "c27rec"=>c27rec(), "c23mem"=>c23mem(), "c20wal"=>c20wal(), "c26replay"=>c26replay(), "c18replay"=>c18replay(), "c02replay"=>c02replay(), "c32"=>c32(), "c11"=>c11(), "c17"=>c17(), "c08"=>c08(), "c29"=>c29(), "c14"=>c14(), "c09"=>c09(), "c18"=>c18(), "c23"=>c23(), "c16"=>c16(), "c40"=>c40(), "c24"=>c24(), "c15"=>c15(), "c22"=>c22(), _=>{ c05(); c26(); c20(); c11(); c17(); } }
 }
